@@ -9,15 +9,18 @@ import (
 
 // genFamily: a flat all-predecessor graph or Workflow with up to three two-way branches, replicated for EVERY
 // combination of constant branch outcomes (a single branch selects one of its two ends, a multi branch any of
-// the four subsets), at most 16 members. The sub-space "all branch outcomes of this graph" is covered
+// the four subsets), at most `limit` members (quick 8, thorough 16). The sub-space "all branch outcomes of this graph" is covered
 // exhaustively.
-func genFamily(r *lib.Rng, o gg.GenOpts) []*gg.Case {
+func genFamily(r *lib.Rng, o gg.GenOpts, x bool, limit int) []*gg.Case {
 	o.MaxDepth = 0
 	o.FailProb = 0
 	var base *gg.Case
-	if r.Chance(1, 2) {
+	switch {
+	case x: // the converging-branches generator of xgen.go, two Workflows for one Graph
+		base = genX(r, !r.Chance(1, 3), o.MaxNodes)
+	case r.Chance(1, 2):
 		base = gg.GenDAG(r, o)
-	} else {
+	default:
 		base = gg.GenWorkflow(r, o)
 	}
 	g := &base.Forest[0]
@@ -60,12 +63,30 @@ func genFamily(r *lib.Rng, o gg.GenOpts) []*gg.Case {
 	total := 1
 	for i, s := range slots {
 		b := &g.Nodes[s.ni].Branches[s.bi]
-		if total*4 > 16 {
+		if total*4 > limit {
 			b.Single = true
 		}
 		switch {
-		case total*2 > 16: // the family is full: this branch keeps one outcome
-			outcomes[i] = [][]uint64{{b.Ends[0]}}
+		case total*2 > limit: // the family is full: this branch keeps its generated table in every member
+			if b.Single {
+				for ri := range b.Table { // (rows refer to the two remaining ends)
+					if len(b.Table[ri]) != 1 || !hasU(b.Ends, b.Table[ri][0]) {
+						b.Table[ri] = []uint64{b.Ends[0]}
+					}
+				}
+			} else {
+				for ri := range b.Table {
+					row := []uint64{}
+					for _, e := range b.Table[ri] {
+						if hasU(b.Ends, e) {
+							row = append(row, e)
+						}
+					}
+					b.Table[ri] = row
+				}
+			}
+			outcomes[i] = nil
+			continue
 		case b.Single:
 			outcomes[i] = [][]uint64{{b.Ends[0]}, {b.Ends[1]}}
 		default:
@@ -80,6 +101,9 @@ func genFamily(r *lib.Rng, o gg.GenOpts) []*gg.Case {
 		_ = json.Unmarshal(raw, &c)
 		x := combo
 		for i, s := range slots {
+			if outcomes[i] == nil {
+				continue
+			}
 			k := x % len(outcomes[i])
 			x /= len(outcomes[i])
 			c.Forest[0].Nodes[s.ni].Branches[s.bi].Table = [][]uint64{outcomes[i][k]}
